@@ -7,6 +7,7 @@ package hook
 import (
 	"fmt"
 	"reflect"
+	"runtime"
 	"strings"
 	"sync"
 	"time"
@@ -232,6 +233,80 @@ func Lock(mu *sync.Mutex) {
 
 func Unlock(mu *sync.Mutex) { mu.Unlock() }
 
+// Mutex is a sync.Locker with the same never-blocking Lock (usable with sync.NewCond).
+type Mutex struct{ mu sync.Mutex }
+
+func NewMutex() *Mutex { return &Mutex{} }
+
+// Lock always parks first: a goroutine woken by Cond.Signal runs beside the task the
+// scheduler resumed, and who wins the mutex must be the scheduler's decision, not a real race.
+//
+//go:norace
+func (m *Mutex) Lock() {
+	if s := Cur.S; s != nil {
+		s.LockWait(&m.mu)
+	}
+	Lock(&m.mu)
+}
+func (m *Mutex) Unlock() { m.mu.Unlock() }
+
+// RWMutex is a readers/writer lock whose waiters park in the scheduler. Its state is
+// guarded by an internal mutex held for a few instructions only (never across a park), which
+// also gives the race detector the release/acquire edges of a real sync.RWMutex.
+type RWMutex struct {
+	mu sync.Mutex
+	st sim.RWState
+}
+
+func NewRWMutex() *RWMutex { return &RWMutex{} }
+
+func (m *RWMutex) try(reader bool) bool {
+	m.mu.Lock()
+	ok := !m.st.Writer && (reader || m.st.Readers == 0)
+	if ok {
+		if reader {
+			m.st.Readers++
+		} else {
+			m.st.Writer = true
+		}
+	}
+	m.mu.Unlock()
+	return ok
+}
+
+func (m *RWMutex) acquire(reader bool) {
+	for !m.try(reader) {
+		if s := Cur.S; s != nil {
+			s.RWLockWait(&m.st, reader)
+		} else {
+			runtime.Gosched()
+		}
+	}
+}
+
+func (m *RWMutex) Lock()  { m.acquire(false) }
+func (m *RWMutex) RLock() { m.acquire(true) }
+
+func (m *RWMutex) Unlock() {
+	m.mu.Lock()
+	if !m.st.Writer {
+		m.mu.Unlock()
+		panic("hook.RWMutex: Unlock of unlocked lock")
+	}
+	m.st.Writer = false
+	m.mu.Unlock()
+}
+
+func (m *RWMutex) RUnlock() {
+	m.mu.Lock()
+	if m.st.Readers <= 0 {
+		m.mu.Unlock()
+		panic("hook.RWMutex: RUnlock of unlocked lock")
+	}
+	m.st.Readers--
+	m.mu.Unlock()
+}
+
 // Fault is a named fault point inside compiled code.
 func Fault(site string) {
 	c := Cur
@@ -261,6 +336,12 @@ func init() {
 			"Lock":           reflect.ValueOf(Lock),
 			"Unlock":         reflect.ValueOf(Unlock),
 			"Fault":          reflect.ValueOf(Fault),
+			"NewMutex":       reflect.ValueOf(NewMutex),
+			"NewRWMutex":     reflect.ValueOf(NewRWMutex),
+		},
+		Types: map[string]reflect.Type{
+			"Mutex":   reflect.TypeOf((*Mutex)(nil)).Elem(),
+			"RWMutex": reflect.TypeOf((*RWMutex)(nil)).Elem(),
 		},
 	}
 }
